@@ -11,7 +11,7 @@
 struct C20Stats {
     uint64_t ops = 0, alloc_ops = 0, dry = 0, faulted = 0, hit = 0, not_hit = 0, pairs = 0;
     uint64_t out_fail_clean = 0, out_success_same = 0;
-    uint64_t wr_faults = 0, events = 0, leak_checks = 0;
+    uint64_t wr_faults = 0, events = 0, leak_checks = 0, dry_heap_misuse = 0, retained_ops = 0;
     uint64_t fn_ops[FN_COUNT] = {0}, fn_alloc_ops[FN_COUNT] = {0}, fn_faulted[FN_COUNT] = {0};
     std::map<std::string, uint64_t> viol_count;
     std::set<uint64_t> cases;
@@ -113,9 +113,19 @@ static Verdict judge(const Plan &plan, const OpResult &dry, const OpResult &r) {
         v.detail = "the call released a block it had already released";
         return v;
     }
-    if (r.outstanding) {
+    if (r.nfailed && r.heap_overrun > dry.heap_overrun) {
+        v.cls = "overrun";
+        v.detail = "after the failed request the call wrote beyond the end of a block it had allocated (red zone overwritten; the fault-free execution does not)";
+        return v;
+    }
+    if (r.nfailed && r.heap_uaf > dry.heap_uaf) {
+        v.cls = "use-after-free";
+        v.detail = "after the failed request the call wrote to (or grew) a block it had already released (the fault-free execution does not)";
+        return v;
+    }
+    if (r.leaked) {
         v.cls = "leak";
-        v.detail = std::to_string(r.outstanding) + " block(s) allocated by the call are still live at return";
+        v.detail = std::to_string(r.leaked) + " block(s) allocated by the call are still live after the call has returned and its thread has ended";
         return v;
     }
     if (!r.nfailed) return v; // the injected failure was not reached (request count changed): nothing to judge
@@ -177,7 +187,7 @@ static void flush_stats(C20Stats &st, const Args &a) {
     auto add = [&](const char *k, uint64_t v) { s += (s.size() > 1 ? "," : "") + std::string("\"") + k + "\":" + std::to_string(v); };
     add("ops", st.ops); add("alloc_ops", st.alloc_ops); add("dry", st.dry); add("faulted", st.faulted); add("hit", st.hit);
     add("not_hit", st.not_hit); add("pairs", st.pairs); add("out_fail_clean", st.out_fail_clean); add("out_success_same", st.out_success_same);
-    add("wr_faults", st.wr_faults); add("events", st.events); add("leak_checks", st.leak_checks);
+    add("wr_faults", st.wr_faults); add("events", st.events); add("leak_checks", st.leak_checks); add("dry_heap_misuse", st.dry_heap_misuse); add("retained_ops", st.retained_ops);
     s += ",\"fn\":{";
     bool first = true;
     for (int f = 0; f < FN_COUNT; f++) {
@@ -283,11 +293,13 @@ int c20_batch(const Args &a) {
         st.nalloc_hist[(int)dry.nalloc]++;
         // no call leaks, faults or not
         st.leak_checks++;
+        if (dry.heap_overrun || dry.heap_uaf) st.dry_heap_misuse++; // memory safety without any fault: not C20's subject; counted
         if (dry.double_free) report(st, a, i, plan, "double-free", "?", "a call in which no allocation failed released a block twice");
-        if (dry.outstanding) {
+        if (dry.outstanding > dry.leaked) st.retained_ops++; // kept beyond the call, released at thread exit: not a leak
+        if (dry.leaked) {
             std::string site = "?";
             for (auto &al : g_live) site = site_name(al.site);
-            report(st, a, i, plan, "leak", site, std::to_string(dry.outstanding) + " block(s) still live at return of a call in which no allocation failed");
+            report(st, a, i, plan, "leak", site, std::to_string(dry.leaked) + " block(s) still live after a call in which no allocation failed has returned and its thread has ended");
         }
         if (samples_left > 0 && dry.nalloc) {
             samples_left--;
@@ -377,8 +389,8 @@ int c20_replay(const std::string &path) {
     PassResult dp;
     exec_one(dryplan, dp);
     OpResult dry = dp.res[0][0];
-    if (dry.outstanding && cls == "leak" && !plan.tasks[0].ops[0].f.alloc_k && !plan.tasks[0].ops[0].f.alloc_mask) {
-        printf("REPRODUCED property=C20 class=leak (fault-free call leaves %u block(s))\n", dry.outstanding);
+    if (dry.leaked && cls == "leak" && !plan.tasks[0].ops[0].f.alloc_k && !plan.tasks[0].ops[0].f.alloc_mask) {
+        printf("REPRODUCED property=C20 class=leak (fault-free call leaves %u block(s))\n", dry.leaked);
         return 1;
     }
     PassResult fp;
